@@ -9,6 +9,8 @@ set and every starting list.  No floats are involved except as opaque values
 import Pastel.Model.Distinct
 import Pastel.Lemmas.Annealing
 import Pastel.Lemmas.Rearrange
+import Pastel.Order
+import Pastel.FloatFns
 
 namespace Pastel.C14
 open Pastel
@@ -363,5 +365,14 @@ instances (`rearrange_len0/1/2`). -/
 theorem rearrange_total (key : Nat → Nat → Int) (hk : ∀ a b, i32Min < key a b) (n : Nat) :
     rearrange key n ≠ none :=
   Pastel.rearrange_total key hk n
+
+
+/-! ### The same for IEEE binary64 (`ScOrd Float` is proved from `Float.Model`) -/
+
+/-- On IEEE floats: a returning annealing run never changes a fixed colour. -/
+theorem float_saRun_fixed (big : Float) (p : SaParams Float) (colors : List (Color Float)) (d : Draws)
+    (hm : MetricOk big p.metric) (hk : p.numFixed ≤ colors.length) (st : SaState Float)
+    (h : saRun big p colors d = some st) : ∀ i, i < p.numFixed → st.colors[i]? = colors[i]? :=
+  saRun_fixed big p colors d hm hk st h
 
 end Pastel.C14
